@@ -172,8 +172,8 @@ func checkPipe(t ev.TB, c PipeCase, labels ...string) {
 	ev.Case(c.Takeovers >= 10, c, labels...)
 	ev.Count("pipelined_takeovers", int64(c.Takeovers))
 	if f != nil && f.inconclusive {
-		ev.Count("inconclusive_cases", 1)
-		t.Fatalf("VERIF-INCONCLUSIVE %s", f.msg)
+		ev.Inconclusive(t, f.msg)
+		return
 	}
 	if f != nil {
 		ev.Fail(t, "pipelined-takeover", c, "%s", f.msg)
